@@ -98,6 +98,6 @@ def strat_directed(tier):
 
 
 PARTS = [
-    Part("ledger", run, strategy, {"quick": 2000, "thorough": 60000}, rule=RULE),
-    Part("split-fork-join", run, strat_directed, {"quick": 1000, "thorough": 30000}, rule="directed: two routes through the same fork-join, branches of different length, arbitrary schedules"),
+    Part("ledger", run, strategy, {"quick": 2000, "thorough": 20000}, rule=RULE),
+    Part("split-fork-join", run, strat_directed, {"quick": 1000, "thorough": 10000}, rule="directed: two routes through the same fork-join, branches of different length, arbitrary schedules"),
 ]
